@@ -1,0 +1,81 @@
+//go:build verif
+
+// Contracts for govc (contract-based deductive verification, see /verif/DESIGN.md).
+// This file contains comments only; it is compiled only with -tags=verif and adds no code.
+
+package items
+
+//@ package items
+//@
+//@ # ---- what one LR(1) item contributes to the entry for terminal sym (C04) ----
+//@ spec itemAccepts(it *Item, sym string) bool = it.ProdIdx == 0 && it.Pos >= it.Len && it.FollowingSymbol == "␚" && sym == "␚"
+//@ spec itemReduces(it *Item) bool = it.Len == 0 || it.Pos >= it.Len
+//@ spec itemAct(it *Item, sym string, next int) action.Action = ite(sym == "INVALID", iface(action.ERROR), ite(itemAccepts(it, sym), iface(action.ACCEPT),
+//@   | ite(itemReduces(it) && it.FollowingSymbol == sym, iface(action.Reduce(it.ProdIdx)), ite(sym == it.ExpectedSymbol, iface(action.Shift(next)), iface(action.ERROR)))))
+//@
+//@ func (*Item).action
+//@   prop C04 C05
+//@   requires [this] this != nil
+//@   ensures [value] result == itemAct(this, sym, nextState)
+//@   assigns nothing
+//@
+//@ func (*Item).accept
+//@   prop C04
+//@   requires [this] this != nil
+//@   ensures [value] result == itemAccepts(this, sym)
+//@   assigns nothing
+//@
+//@ func (*Item).reduce
+//@   prop C04
+//@   requires [this] this != nil
+//@   ensures [value] result == itemReduces(this)
+//@   assigns nothing
+//@
+//@ # C07: a state is a recovery state exactly if one of its items has the dot immediately before the error symbol
+//@ func (*Item).canRecover
+//@   prop C07
+//@   requires [this] this != nil
+//@   ensures [value] result == (this.ExpectedSymbol == "error")
+//@   assigns nothing
+//@
+//@ func (*ItemSet).CanRecover
+//@   prop C07
+//@   requires [this] this != nil && all(k, 0, len(this.Items), this.Items[k] != nil)
+//@   ensures [value] result == some(k, 0, len(this.Items), this.Items[k].ExpectedSymbol == "error")
+//@   assigns nothing
+//@   loop 1
+//@     invariant [none-so-far] all(k, 0, range_i1, this.Items[k].ExpectedSymbol != "error")
+//@
+//@ # ---- the entry of a state for one terminal: the fold over its items (C04, C05) ----
+//@ spec nextOf(this *ItemSet, symbol string) int = ite(has(this.Transitions, symbol), this.Transitions[symbol], 0)
+//@ spec cand(this *ItemSet, symbol string, k int) action.Action = itemAct(this.Items[k], symbol, nextOf(this, symbol))
+//@ spec nonErr(a action.Action) bool = !typeis(a, action.Error)
+//@ spec isShiftA(a action.Action) bool = typeis(a, action.Shift)
+//@ spec isReduceA(a action.Action) bool = typeis(a, action.Reduce)
+//@ spec isAcceptA(a action.Action) bool = typeis(a, action.Accept)
+//@ # two items compete: both propose an action and the proposals differ
+//@ spec compete(a action.Action, b action.Action) bool = nonErr(a) && nonErr(b) && a != b
+//@
+//@ func (*ItemSet).Action
+//@   prop C04 C05
+//@   requires [this] this != nil && all(k, 0, len(this.Items), this.Items[k] != nil)
+//@   # C04: a conflict with accept (a start symbol that derives itself) is refused in both modes
+//@   panics [accept-conflict] some(j, 0, len(this.Items), some(k, 0, len(this.Items), isAcceptA(cand(this, symbol, j)) && compete(cand(this, symbol, j), cand(this, symbol, k))))
+//@   ensures [none] imp(all(k, 0, len(this.Items), !nonErr(cand(this, symbol, k))), act1 == iface(action.ERROR))
+//@   ensures [member] imp(some(k, 0, len(this.Items), nonErr(cand(this, symbol, k))), some(k, 0, len(this.Items), act1 == cand(this, symbol, k) && nonErr(act1)))
+//@   # C05: shift if a shift is among the competitors, otherwise the reduce with the smallest production index
+//@   ensures [shift-wins] imp(some(k, 0, len(this.Items), isShiftA(cand(this, symbol, k))), isShiftA(act1))
+//@   ensures [earliest] imp(!some(k, 0, len(this.Items), isShiftA(cand(this, symbol, k))) && isReduceA(act1), all(k, 0, len(this.Items), imp(isReduceA(cand(this, symbol, k)), as(act1, action.Reduce) <= as(cand(this, symbol, k), action.Reduce))))
+//@   # C04: conflicts are reported exactly when two items propose different actions
+//@   ensures [conflicts] (len(conflicts) > 0) == some(j, 0, len(this.Items), some(k, 0, len(this.Items), compete(cand(this, symbol, j), cand(this, symbol, k))))
+//@   loop 1
+//@     invariant [map] conflictMap != nil && conflictMap >= old(alloc())
+//@     invariant [kind] typeis(act1, action.Accept) || typeis(act1, action.Error) || typeis(act1, action.Reduce) || typeis(act1, action.Shift)
+//@     invariant [none] iff(all(k, 0, range_i1, !nonErr(cand(this, symbol, k))), act1 == iface(action.ERROR)) && imp(!nonErr(act1), act1 == iface(action.ERROR))
+//@     invariant [member] imp(nonErr(act1), some(k, 0, range_i1, act1 == cand(this, symbol, k)))
+//@     invariant [shift-wins] imp(some(k, 0, range_i1, isShiftA(cand(this, symbol, k))), isShiftA(act1))
+//@     invariant [earliest] imp(isReduceA(act1), all(k, 0, range_i1, imp(isReduceA(cand(this, symbol, k)), as(act1, action.Reduce) <= as(cand(this, symbol, k), action.Reduce))))
+//@     invariant [no-accept-conflict] !some(j, 0, range_i1, some(k, 0, range_i1, isAcceptA(cand(this, symbol, j)) && compete(cand(this, symbol, j), cand(this, symbol, k))))
+//@     invariant [conflicts] nonempty(conflictMap) == some(j, 0, range_i1, some(k, 0, range_i1, compete(cand(this, symbol, j), cand(this, symbol, k))))
+//@   loop 2
+//@     invariant [count] len(conflicts) == range_i2
